@@ -115,7 +115,8 @@ def run(ctx: common.Ctx):
                 allstats[k] = allstats.get(k, 0) + n
             variants.append((f"v{v}", pv))
         for vn, pv in variants:
-            jobs.append(cexec.Job(tag=f"p{i}:{vn}", expr=pv.expr(), runs=runs, prep=_prep_dedup))
+            jobs.append(cexec.Job(tag=f"p{i}:{vn}", expr=pv.expr(), runs=runs, prep=_prep_dedup,
+                                  kir_orders=2, kir_seed=ctx.seed + i, want_wire=True))
             meta.append((i, vn, pv, runs, base))
     results = cexec.run_jobs(ctx, jobs)
     dis = 0
@@ -189,6 +190,31 @@ def run(ctx: common.Ctx):
                                "tags": _describe_tags(pv)})
         if i % 30 == 0 and vn == "v0":
             ctx.sample({"batch": "tag-variants", "program": i, "variant": vn, "tags": _describe_tags(pv)[:8]})
+    # every variant's kernel through the kernel read-back (random dependency-respecting orders) and the
+    # verified static check of the Lean kernel model
+    from .c01_kernel import check_readback, lean_queries
+    kq, kown = [], []
+    kdis = kn = 0
+    for (i, vn, pv, runs, base), res in zip(meta, results):
+        if res.error and not str(res.stage).startswith("c-"):
+            continue
+        if res.kir is None:
+            continue
+        kn += 1
+        kdis += check_readback(ctx, f"tags[{vn != 'untagged' and 'tagged' or 'untagged'}]", pv, runs, res)
+        qs = lean_queries(pv, runs, res)
+        if qs:
+            kown.append((i, vn, len(kq)))
+            kq.append(qs[0])
+    kans = common.driver_query_parallel(kq)
+    for (i, vn, pos) in kown:
+        if kans[pos] != "ok #t":
+            kdis += 1
+            ctx.violation("tags:checkKernel-fails",
+                          f"program {i} variant {vn}: the generated kernel fails the verified static check "
+                          "(single assignment / dependency completeness)", {"program_index": i, "variant": vn,
+                                                                            "seed": ctx.seed})
+    ctx.note_batch("kernel-readback+checkKernel-of-all-variants", kn, kdis, exhaustive=False)
     ctx.coverage["executor_unsupported"] = unsupported
     ctx.note_batch("tag-variants-vs-untagged-vs-reference", len(jobs), dis, exhaustive=False,
                    programs=nprog, variants_per_program=nvar + 1, tag_kinds_applied=allstats)
